@@ -382,23 +382,23 @@ theorem newSubLinks_graph (db : Db) (parent : H) (seen : List H) (subs : List Va
       exact ⟨by rw [List.filterMap_cons]; simpa [nodeOf] using this.1, by rw [List.filterMap_cons]; simpa [edgeOf] using this.2.1,
         by rw [List.filterMap_cons]; simpa [subOf] using this.2.2⟩
 
-theorem subSpecialOps_graph (db : Db) (seen : List H) (subs : List ValueRow) :
-    (subSpecialOps db seen subs).filterMap nodeOf = [] ∧ (subSpecialOps db seen subs).filterMap edgeOf = [] ∧
-    (subSpecialOps db seen subs).filterMap subOf = [] := by
-  induction subs generalizing seen with
+theorem subSpecialOps_graph (db : Db) (seenF seenT : List H) (subs : List ValueRow) :
+    (subSpecialOps db seenF seenT subs).filterMap nodeOf = [] ∧ (subSpecialOps db seenF seenT subs).filterMap edgeOf = [] ∧
+    (subSpecialOps db seenF seenT subs).filterMap subOf = [] := by
+  induction subs generalizing seenF seenT with
   | nil => simp [subSpecialOps]
   | cons r rest ih =>
     simp only [subSpecialOps]
     split
-    · exact ih seen
+    · exact ih seenF seenT
     · split
-      · exact ih seen
-      · have := ih (seen ++ [r.hash])
+      · exact ih seenF seenT
+      · have := ih seenF (seenT ++ [r.hash])
         exact ⟨by rw [List.filterMap_cons]; simpa [nodeOf] using this.1, by rw [List.filterMap_cons]; simpa [edgeOf] using this.2.1,
           by rw [List.filterMap_cons]; simpa [subOf] using this.2.2⟩
     · split
-      · exact ih seen
-      · have := ih (seen ++ [r.hash])
+      · exact ih seenF seenT
+      · have := ih (seenF ++ [r.hash]) seenT
         exact ⟨by rw [List.filterMap_cons]; simpa [nodeOf] using this.1, by rw [List.filterMap_cons]; simpa [edgeOf] using this.2.1,
           by rw [List.filterMap_cons]; simpa [subOf] using this.2.2⟩
 
@@ -414,13 +414,32 @@ theorem recordSubvalues_graph (parent : H) (subs : List ValueRow) (s : Sess) :
     have h0 := addCommit_graph s (newSubValues s.view [] subs ++ newSubLinks s.view parent [] subs)
       (by rw [List.filterMap_append, a1.1, a2.1]; rfl) (by rw [List.filterMap_append, a1.2.1, a2.2.1]; rfl)
       (by rw [List.filterMap_append, a1.2.2, a2.2.2]; rfl)
-    have a3 := subSpecialOps_graph (s.addAll (newSubValues s.view [] subs ++ newSubLinks s.view parent [] subs)).commit.view [] subs
+    have a3 := subSpecialOps_graph (s.addAll (newSubValues s.view [] subs ++ newSubLinks s.view parent [] subs)).commit.view [] [] subs
     have h := addCommit_graph (s.addAll (newSubValues s.view [] subs ++ newSubLinks s.view parent [] subs)).commit _ a3.1 a3.2.1 a3.2.2
     refine ⟨h.1.trans h0.1, ?_, fun _ => h.2.2⟩
     intro snap hmem
     rcases h.2.1 snap hmem with h' | h'
     · exact h0.2.1 snap h'
     · exact Or.inr (h'.trans h0.1)
+
+theorem valueOps_graph (db : Db) (x : ValueSpec) :
+    (valueOps db x).filterMap nodeOf = [] ∧ (valueOps db x).filterMap edgeOf = [] ∧
+    (valueOps db x).filterMap subOf = [] := by
+  unfold valueOps
+  simp only
+  have h2 := specialMissing_graph
+  split
+  · refine ⟨?_, ?_, ?_⟩ <;> rw [List.filterMap_append]
+    · rw [(h2 _ _).1]; rfl
+    · rw [(h2 _ _).2.1]; rfl
+    · rw [(h2 _ _).2.2]; rfl
+  · have a1 := newSubValues_graph
+    have a2 := newSubLinks_graph
+    have a3 := subSpecialOps_graph
+    refine ⟨?_, ?_, ?_⟩ <;> simp only [List.filterMap_append]
+    · rw [(h2 _ _).1, (a1 _ _ _).1, (a2 _ _ _ _).1, (a3 _ _ _ _).1]; rfl
+    · rw [(h2 _ _).2.1, (a1 _ _ _).2.1, (a2 _ _ _ _).2.1, (a3 _ _ _ _).2.1]; rfl
+    · rw [(h2 _ _).2.2, (a1 _ _ _).2.2, (a2 _ _ _ _).2.2, (a3 _ _ _ _).2.2]; rfl
 
 /-- `record_value` never touches the call graph tables: every durable state it produces carries the call
 graph the session saw when it was called. -/
@@ -431,13 +450,17 @@ theorem recordValue_graph (v : Variant) (x : ValueSpec) (s : Sess) :
   unfold recordValue
   split
   · exact ⟨rfl, fun snap h => Or.inl h, fun h => h⟩
-  · have h0 := recordValueCore_graph v x.row s
-    have h := recordSubvalues_graph x.row.hash x.subs (recordValueCore v x.row s)
-    refine ⟨h.1.trans h0.1, ?_, fun _ => h.2.2 h0.2.2⟩
-    intro snap hmem
-    rcases h.2.1 snap hmem with h' | h'
-    · exact h0.2.1 snap h'
-    · exact Or.inr (h'.trans h0.1)
+  · split
+    · have hg := valueOps_graph s.view x
+      have h := addCommit_graph s (valueOps s.view x) hg.1 hg.2.1 hg.2.2
+      exact ⟨h.1, h.2.1, fun _ => h.2.2⟩
+    · have h0 := recordValueCore_graph v x.row s
+      have h := recordSubvalues_graph x.row.hash x.subs (recordValueCore v x.row s)
+      refine ⟨h.1.trans h0.1, ?_, fun _ => h.2.2 h0.2.2⟩
+      intro snap hmem
+      rcases h.2.1 snap hmem with h' | h'
+      · exact h0.2.1 snap h'
+      · exact Or.inr (h'.trans h0.1)
 
 theorem recordValues_graph (v : Variant) (rs : List ValueSpec) (s : Sess) :
     G (recordValues v rs s).view = G s.view ∧
@@ -487,7 +510,9 @@ theorem recordValue_mono (v : Variant) (x : ValueSpec) (s : Sess) (h : H) (hv : 
   unfold recordValue
   split
   · exact hv
-  · exact recordSubvalues_mono _ _ _ _ (recordValueCore_mono _ _ _ _ hv)
+  · split
+    · exact hasValue_commit_addAll _ _ _ hv
+    · exact recordSubvalues_mono _ _ _ _ (recordValueCore_mono _ _ _ _ hv)
 
 theorem hasValue_after_value (db : Db) (r : ValueRow) : hasValue (applyOp db (.value r)) r.hash = true := by
   simp [hasValue, applyOp]
@@ -499,11 +524,25 @@ theorem recordValueCore_has (v : Variant) (r : ValueRow) (s : Sess) : hasValue (
   · exact hasValue_commit_addAll _ _ _ (by simp only [view_add]; exact hasValue_after_value _ _)
   · exact hasValue_commit_addAll _ _ _ (by simp only [view_commit, view_add]; exact hasValue_after_value _ _)
 
+theorem valueOps_mem (db : Db) (x : ValueSpec) : RowOp.value x.row ∈ valueOps db x := by
+  unfold valueOps
+  simp only
+  split <;> simp
+
+theorem hasValue_of_mem_ops (db : Db) (ops : List RowOp) (r : ValueRow) (h : RowOp.value r ∈ ops) :
+    hasValue (applyOps db ops) r.hash = true := by
+  simp only [hasValue, applyOps_values, List.any_append, Bool.or_eq_true, List.any_eq_true]
+  right
+  exact ⟨r, List.mem_filterMap.mpr ⟨_, h, rfl⟩, by simp⟩
+
 theorem recordValue_has (v : Variant) (x : ValueSpec) (s : Sess) : hasValue (recordValue v x s).view x.row.hash = true := by
   unfold recordValue
   split
   · rename_i h; exact h
-  · exact recordSubvalues_mono _ _ _ _ (recordValueCore_has _ _ _)
+  · split
+    · simp only [view_commit, view_addAll]
+      exact hasValue_of_mem_ops _ _ _ (valueOps_mem _ _)
+    · exact recordSubvalues_mono _ _ _ _ (recordValueCore_has _ _ _)
 
 theorem recordValues_mono (v : Variant) (rs : List ValueSpec) (s : Sess) (h : H) (hv : hasValue s.view h = true) :
     hasValue (recordValues v rs s).view h = true := by
